@@ -2,6 +2,7 @@ package harness
 
 import (
 	"fmt"
+	"strconv"
 	"strings"
 	"time"
 )
@@ -63,7 +64,7 @@ func genPad(r *RNG) int {
 // genBody returns a deterministic body of n bytes for request rid.
 func genBody(rid, n int) []byte {
 	b := make([]byte, n)
-	tag := fmt.Sprintf("[req %d]", rid)
+	tag := "[req " + strconv.Itoa(rid) + "]"
 	for i := range b {
 		b[i] = tag[i%len(tag)]
 	}
